@@ -179,7 +179,7 @@ func searchWitness(e *Engine, res *checkResult, o *Obligation, seed int) map[str
 
 // property-specific replay oracles (by function; "*" = any function of the property)
 var propHarness = map[string]map[string][]string{
-	"C07": {"detect.Threshold": {"detect:threshold-exhaustive"}, "detect.ThresholdQ": {"detect:thresholdq-perm"}, "*": {"detect:fast-vs-seq"}},
+	"C07": {"detect.Threshold": {"detect:threshold-exhaustive"}, "detect.ThresholdQ": {"detect:thresholdq-perm"}, "*": {"detect:decision-rule", "detect:fast-vs-seq"}},
 	"C08": {"*": {"detect:fast-vs-seq"}},
 	"C09": {"*": {"detect:failing-source"}},
 	"C10": {"*": {"detect:chunking"}},
